@@ -1,8 +1,50 @@
 import Genshi.Wire
+import Genshi.WireCore
+import Genshi.Model.San
+import Genshi.Model.SanSpec
 namespace Driver.C06
-open Genshi
+open Genshi Genshi.San Genshi.Sexp
 
-/-- stub: the model driver for C06 is not built yet -/
-def handle : List Sexp → Option Sexp := fun _ => none
+def strs? : Sexp → Option (List Str)
+  | .list xs => xs.mapM Sexp.toStr?
+  | _ => none
+
+/-- `( tags attrs schemes uriattrs css )` or the atom `D` for the default sets -/
+def cfg? : Sexp → Option Cfg
+  | .atom "D" => some Cfg.default
+  | .list [a, b, c, d, e] => do
+      let a ← strs? a; let b ← strs? b; let c ← strs? c; let d ← strs? d; let e ← strs? e
+      pure ⟨a, b, c, d, e⟩
+  | _ => none
+
+def errName : Err → String
+  | .valueError => "ValueError"
+  | .overflowError => "OverflowError"
+
+def res {α} (f : α → Sexp) : Except Err α → Sexp
+  | .ok a => .list [.atom "ok", f a]
+  | .error e => .list [.atom "err", .atom (errName e)]
+
+def handle : List Sexp → Option Sexp
+  | [.atom "filter", cfg, evs] => do
+      let cfg ← cfg? cfg; let s ← streamOfSexp? evs
+      pure (res streamToSexp (sanitize cfg s))
+  | [.atom "css", cfg, .str t] => do
+      let cfg ← cfg? cfg
+      pure (res (fun ds => .list (ds.map .str)) (sanitizeCss cfg t))
+  | [.atom "uri", cfg, .str t] => do
+      let cfg ← cfg? cfg
+      pure (ofBool (isSafeUri cfg t))
+  | [.atom "ent", .str t] => some (res .str (stripentities t))
+  | [.atom "elem", cfg, t, a] => do
+      let cfg ← cfg? cfg; let t ← QName.ofSexp? t; let a ← attrsOfSexp? a
+      pure (ofBool (isSafeElem cfg t a))
+  -- specification side, compared with the oracle's own readers
+  | [.atom "bscheme", .str t] => some (optStr (Spec.browserScheme t))
+  | [.atom "cssdecode", .str t] => some (.str (Spec.cssDecode t))
+  | [.atom "cssok", schemes, .str t] => do
+      let schemes ← strs? schemes
+      pure (ofBool (Spec.cssOk schemes t))
+  | _ => none
 
 end Driver.C06
